@@ -216,8 +216,8 @@ theorem bindAll_finv (ov : Bool) : ∀ (d : List (Option Str × Str)) (st : Stor
 theorem Mgr.init_finv (st : Store) (b : BindSet) : FInv (Mgr.init st b).2.1.trie := by
   cases b with
   | none => exact finv_nil
-  | core => exact bindAll_finv true _ st Mgr.empty finv_nil
-  | rdflib => exact bindAll_finv true _ st Mgr.empty finv_nil
+  | core => exact bindAll_finv false _ st Mgr.empty finv_nil
+  | rdflib => exact bindAll_finv false _ st Mgr.empty finv_nil
 
 theorem getQNames_finv : ∀ (d : List (Str × Bool)) (st : Store) (m : Mgr),
     FInv m.trie → FInv (getQNames d st m).2.trie
